@@ -196,7 +196,14 @@ def run(eng, R):
     with R.guard("every constraint given to a wrapper reaches the fit: the loo"):
         def iter_source(loop):
             """'sequence' if the loop runs over the wrapper argument (possibly wrapped into a tuple), 'mapping' if it runs over the items of a mapping, else None"""
-            it = loop.iter
+            return kind_of(loop.iter)
+
+        def kind_of(it):
+            if isinstance(it, ast.IfExp):   # (`specs if isinstance(specs[0], (list, tuple)) else (specs,)`: a single specification wrapped into a tuple)
+                kinds = {kind_of(it.body), kind_of(it.orelse)}
+                return kinds.pop() if len(kinds) == 1 else None
+            if isinstance(it, (ast.Tuple, ast.List)) and it.elts and all(isinstance(e, ast.Name) and e.id in ("constraints", "limits", "fixed") for e in it.elts):
+                return "sequence"
             if isinstance(it, ast.Call) and isinstance(it.func, ast.Attribute) and it.func.attr in ("items", "keys", "values"):
                 return "mapping"
             if isinstance(it, ast.Name) and it.id in ("constraints", "limits", "fixed"):
